@@ -101,6 +101,29 @@ func runC13(c *Ctx) {
 			for _, i := range permute(c.Rng, len(data)) {
 				gc.Data[data[i].k] = data[i].v
 			}
+			// how the object came to its content is not content: some builds have been encoded before (same key, same
+			// second, or another key) with OTHER standard fields and carry the stamps of that encoding
+			for _, cd := range []*jwt.ClaimsData{&ac.ClaimsData, &gc.ClaimsData} {
+				switch c.Rng.Intn(4) {
+				case 0:
+					cd.Name, cd.Expires, cd.Audience, cd.NotBefore = "earlier name", 4102444800, "earlier", 5
+					if cd == &ac.ClaimsData {
+						ac.Encode(acctKp.kp)
+					} else {
+						gc.Encode(acctKp.kp)
+					}
+				case 1:
+					cd.Name = "earlier name"
+					if cd == &ac.ClaimsData {
+						ac.Encode(kr.by["operator"].kp)
+					} else {
+						gc.Encode(kr.by["operator"].kp)
+					}
+				case 2:
+					cd.ID, cd.IssuedAt, cd.Issuer = "STALEID", 12345, "someone"
+				}
+				cd.Name, cd.Expires, cd.Audience, cd.NotBefore = fmt.Sprintf("content %d", n), 4102444800+int64(n), "aud", int64(n%3)
+			}
 			return ac, gc
 		}
 		tokens := map[string][]string{}
@@ -155,7 +178,7 @@ func runC13(c *Ctx) {
 	}
 	w.flush()
 	c.sum.DistinctNontriv = len(distinct)
-	c.sum.Rule = fmt.Sprintf("%d contents (account with 2-6 plain/scoped signing keys, revocations, tiers, mappings, export revocations; generic data) each built through %d random insertion permutations of every unordered collection and encoded %d times per build with the same key; all tokens that share a decoded issue time must be byte-identical (pairs straddling a second fall into different groups); non-trivial = distinct token text", contents, orders, repeats)
+	c.sum.Rule = fmt.Sprintf("%d contents (account with 2-6 plain/scoped signing keys, revocations, tiers, mappings, export revocations; generic data) each built through %d random insertion permutations of every unordered collection (a quarter of the builds each: encoded before with the same key and other standard fields / with another key / carrying stale stamps / fresh) and encoded %d times per build with the same key; all tokens that share a decoded issue time must be byte-identical (pairs straddling a second fall into different groups); non-trivial = distinct token text", contents, orders, repeats)
 }
 
 // ---------------------------------------------------------------- C14
